@@ -74,7 +74,9 @@ def forks(ir, include_invalid: bool):
                 # its body runs and may evaluate unmemoised rules that are also reached another way), later meetings are hits.
                 # Only one memoised rule is looked through on a path: deeper ones are misses of *other* evaluations
                 through_memo = sum(1 for n in stack[1:] if memoised(rules[n]))
-                if it.name not in stack and key not in expanded and len(stack) < 40 and (not memoised(x) or through_memo == 0):
+                # a rule already on the stack is entered once more (one unrolling of the recursion): the second level meets the
+                # rules of the first at the positions one nesting level further in, which is where a quadratic re-scan shows
+                if stack.count(it.name) < 2 and key not in expanded and len(stack) < 40 and (not memoised(x) or through_memo == 0):
                     expanded.add(key)
                     expand(x, prefix, stack + (it.name,))
             elif isinstance(it, Group):
@@ -108,7 +110,13 @@ def forks(ir, include_invalid: bool):
                 continue
             path = reaches_unmemoised(xname, R.name)
             if path is None:
-                continue
+                # X does not lead back into R, but both recurse on their own through unmemoised rules only and R enters X at every
+                # level: each level of R re-runs X's whole descent (work grows with the square of the nesting depth)
+                if xname != R.name and reaches_unmemoised(R.name, R.name) is not None and reaches_unmemoised(xname, xname) is not None \
+                        and prefix:
+                    path = [R.name, "...", R.name, xname, "...", xname]
+                else:
+                    continue
             # the repeated evaluation multiplies only if the recursion through X meets no memo barrier at all: X lies on a
             # cycle of unmemoised rules (a cycle that passes a memoised rule is cut there: its second evaluation is a hit)
             if reaches_unmemoised(xname, xname) is None:
@@ -431,6 +439,11 @@ def rule_w5(chk: Check):
                 a0 = n.args[0]
                 if norm_stmt(n.func) in ("list", "sorted", "tuple") and "self._tokens" in norm_stmt(a0):
                     bad = norm_stmt(n)
+            if isinstance(n, ast.Call) and norm_stmt(n.func).split(".")[-1] in ("islice", "reversed", "dropwhile", "takewhile", "filter", "zip") \
+                    and any("self._tokens" in norm_stmt(a) for a in n.args):
+                # a walk that starts at an end of the buffer (and skips up to the current position) is linear in how far the parser
+                # is from that end — the whole buffer in the diagnostic pass
+                bad = norm_stmt(n)
             if isinstance(n, (ast.ListComp, ast.GeneratorExp, ast.For)) and "self._tokens" in norm_stmt(n.generators[0].iter if not isinstance(n, ast.For) else n.iter) \
                     and not norm_stmt(n.generators[0].iter if not isinstance(n, ast.For) else n.iter).startswith("reversed(self._tokens)"):
                 it = n.generators[0].iter if not isinstance(n, ast.For) else n.iter
@@ -560,3 +573,6 @@ def run(chk: Check):
     chk.floor("W1-memo-barrier", 150)
     chk.floor("W2-cache-hit", 9)
     chk.floor("W3-consuming-repetition", 100)
+    # the commit points W4 relies on exist in a regenerated parser only if the generator emits the cut variable and its exit
+    from .c17 import Classes, rule_t3
+    rule_t3(chk, Classes())
